@@ -244,4 +244,15 @@ def faceVertexContacts2 (pos12 : Iso2 K) (a1 b1 v2 sep : V2 K) (flipped : Bool) 
   let dist := (a1.sub v21).dot n / denom
   C14.Contact2.flipped (v21.sub (n.smul dist)) (pos12.invAct v21) dist flipped
 
+/-! ## `Triangle::{scaled_normal, normal}` (3-D) -/
+
+/-- `Triangle::scaled_normal`: `(b - a).cross(c - a)` -/
+def triScaledNormal3 (a b c : V3 K) : V3 K := (b.sub a).cross (c.sub a)
+
+/-- `Triangle::normal`: `Unit::try_new(scaled_normal, DEFAULT_EPSILON)` — `None` for a flat triangle -/
+def triNormal3 (a b c : V3 K) : Option (V3 K) :=
+  let v := triScaledNormal3 a b c
+  let sqn := v.normSq
+  if segEps * segEps < sqn then some (v.sdiv (Num.sqrt sqn)) else none
+
 end Model
